@@ -99,7 +99,9 @@ class RS:
         else:
             raise Reject("StreamError", "whence", path)
         if p < 0:
-            raise Reject("StreamError", "negative seek", path)
+            if whence == 0:
+                raise Reject("StreamError", "negative seek", path)
+            p = 0           # BytesIO clamps relative and end-relative seeks at the start
         self.pos = p
         return self.tell()
 
@@ -130,7 +132,9 @@ class WS:
         else:
             p = len(self.buf) + off
         if p < 0:
-            raise Reject("StreamError", "negative seek", path)
+            if whence == 0:
+                raise Reject("StreamError", "negative seek", path)
+            p = 0
         self.pos = p
         return self.tell()
 
